@@ -56,6 +56,9 @@ class DetLoop(asyncio.SelectorEventLoop):
     def __init__(self):
         super().__init__(selector=_NullSelector())
         self._vt = 1000.0
+        # exceptions of fire-and-forget tasks are observed by the harness
+        # where they matter; keep asyncio from printing them
+        self.set_exception_handler(lambda loop, ctx: None)
 
     def time(self):
         return self._vt
